@@ -127,15 +127,19 @@ class World:
                       for i in range(3)]
         self.tag = data.Tag(term=term("species"), value="x")
 
-        def se(name):
-            return data.SoundEvent(uuid=U("se:" + name), recording=self.rec,
-                                   geometry=data.TimeInterval(coordinates=[0.25, 0.5]))
+        def se(name, geometry=None):
+            return data.SoundEvent(uuid=U("se:" + name), recording=self.rec, geometry=geometry)
 
+        # sound events of the clip_evaluation / match spaces carry no geometry and no tags: both are irrelevant to
+        # the invariants and their validation would dominate the cost of the dict / json / aoef paths
         self.ann = [data.SoundEventAnnotation(uuid=U("a%d" % i), sound_event=se("a%d" % i), created_on=DT)
                     for i in range(3)]
-        self.pred = [data.SoundEventPrediction(uuid=U("p%d" % i), sound_event=se("p%d" % i), score=0.5,
-                                               tags=[data.PredictedTag(tag=self.tag, score=0.5)])
+        self.pred = [data.SoundEventPrediction(uuid=U("p%d" % i), sound_event=se("p%d" % i), score=0.5)
                      for i in range(3)]
+        # the prediction of the score space is a full one (geometry, predicted tag)
+        self.spred = data.SoundEventPrediction(
+            uuid=U("sp"), sound_event=se("sp", data.TimeInterval(coordinates=[0.25, 0.5])), score=0.5,
+            tags=[data.PredictedTag(tag=self.tag, score=0.5)])
         self.name_of = {}
         for i in range(3):
             self.name_of[self.ann[i].uuid] = str(i)
@@ -189,15 +193,15 @@ class World:
         self.pca_js = {k: v.model_dump(mode="json") for k, v in self.pca.items()}
         self.project_doc = self.save(self.project)
         # --- score / clip carriers (one clip, one prediction of every kind)
-        seq = data.Sequence(uuid=U("seq"), sound_events=[self.pred[0].sound_event])
+        seq = data.Sequence(uuid=U("seq"), sound_events=[self.spred.sound_event])
         self.seqp = data.SequencePrediction(uuid=U("seqp"), sequence=seq, score=0.5,
                                             tags=[data.PredictedTag(tag=self.tag, score=0.5)])
         self.ptag = data.PredictedTag(tag=self.tag, score=0.5)
-        self.scp = data.ClipPrediction(uuid=U("sCP"), clip=self.clips[0], sound_events=[self.pred[0]],
+        self.scp = data.ClipPrediction(uuid=U("sCP"), clip=self.clips[0], sound_events=[self.spred],
                                        sequences=[self.seqp], tags=[data.PredictedTag(tag=self.tag, score=0.5)])
         sca = data.ClipAnnotation(uuid=U("sCA"), clip=self.clips[0], created_on=DT)
         self.sce = data.ClipEvaluation(uuid=U("sce"), annotations=sca, predictions=self.scp,
-                                       matches=[data.Match(uuid=U("sm"), source=self.pred[0], affinity=0.5)], score=0.5)
+                                       matches=[data.Match(uuid=U("sm"), source=self.spred, affinity=0.5)], score=0.5)
         carriers = {
             "annotation_set": data.AnnotationSet(uuid=U("c:as"), clip_annotations=[sca], created_on=DT),
             "annotation_project": data.AnnotationProject(
@@ -684,7 +688,7 @@ def run_score(case):
     if cname == "PredictedTag":
         direct(data.PredictedTag, w.ptag, lambda: data.PredictedTag(tag=w.tag, score=v))
         # nested in every parent that holds predicted tags (dict / json of the parent, edited)
-        parents = {"clip_predictions": (data.ClipPrediction, w.scp), "sound_event_predictions": (data.SoundEventPrediction, w.pred[0]),
+        parents = {"clip_predictions": (data.ClipPrediction, w.scp), "sound_event_predictions": (data.SoundEventPrediction, w.spred),
                    "sequence_predictions": (data.SequencePrediction, w.seqp)}
         for site, (cls, valid) in parents.items():
             d = valid.model_dump()
@@ -698,7 +702,7 @@ def run_score(case):
             P.add("json:in_" + site, obs, True, after(obj.tags[0].score) if obj is not None else None)
         getters = {
             "clip_predictions": (str(U("sCP")), lambda cp: cp.tags[0].score),
-            "sound_event_predictions": (str(w.pred[0].uuid), lambda cp: cp.sound_events[0].tags[0].score),
+            "sound_event_predictions": (str(w.spred.uuid), lambda cp: cp.sound_events[0].tags[0].score),
             "sequence_predictions": (str(U("seqp")), lambda cp: cp.sequences[0].tags[0].score),
         }
         for kind in PRED_CARRIERS:
@@ -712,10 +716,10 @@ def run_score(case):
                 aoef(kind, site, uuid, lambda o, g=g, kind=kind: g(loaded_cp(kind, o)),
                      "aoef:%s/%s.tags" % (kind, site), tags=[[tags[0][0], v]] + [list(t) for t in tags[1:]])
     elif cname == "SoundEventPrediction":
-        direct(data.SoundEventPrediction, w.pred[0],
-               lambda: data.SoundEventPrediction(uuid=U("p0"), sound_event=w.pred[0].sound_event, score=v))
+        direct(data.SoundEventPrediction, w.spred,
+               lambda: data.SoundEventPrediction(uuid=U("sp"), sound_event=w.spred.sound_event, score=v))
         for kind in PRED_CARRIERS:
-            aoef(kind, "sound_event_predictions", str(w.pred[0].uuid),
+            aoef(kind, "sound_event_predictions", str(w.spred.uuid),
                  lambda o, kind=kind: loaded_cp(kind, o).sound_events[0].score, "aoef:" + kind, score=v)
     elif cname == "SequencePrediction":
         direct(data.SequencePrediction, w.seqp,
